@@ -88,6 +88,17 @@ let run_op (op : string) (args : string list) : string =
     string_of_res
       (fun (v, ((rd, scr), cur)) -> Printf.sprintf "%s %s %d %s" (string_of_value v) (hex_of_bytes rd.rd_data) (int_of_nat cur) (hex_of_bytes scr))
       (from_io (ty_of_sexp (parse_sexp t)) { rd_data = bytes_of_hex bs; rd_limit = lim } sc)
+  | "fromioc", [ t; bs; events; scratch ] ->
+    (* the reader delivers its data in pieces: one event per call of read *)
+    let ev e =
+      if e = "i" then RdInterrupted else if e = "z" then RdZero else if e = "f" then RdFail
+      else if String.length e > 1 && e.[0] = 'g' then RdGive (nat_of_int (int_of_string (String.sub e 1 (String.length e - 1))))
+      else failwith ("bad read event " ^ e) in
+    let sched = if events = "-" then [] else List.map ev (String.split_on_char ',' events) in
+    let sc = List.init (int_of_string scratch) (fun _ -> canary) in
+    string_of_res
+      (fun (v, ((rd, scr), cur)) -> Printf.sprintf "%s %s %d %s" (string_of_value v) (hex_of_bytes rd.cr_data) (int_of_nat cur) (hex_of_bytes scr))
+      (from_io_c (ty_of_sexp (parse_sexp t)) { cr_data = bytes_of_hex bs; cr_sched = sched } sc)
   | "decrc", [ alg; t; bs ] ->
     let a, nb = alg_of_string alg in
     string_of_res (fun (v, rest) -> string_of_value v ^ " " ^ hex_of_bytes rest) (take_from_bytes_crc a nb (ty_of_sexp (parse_sexp t)) (bytes_of_hex bs))
